@@ -87,7 +87,7 @@ func verdictOperand(v ssa.Value, recv string, tr func(ssa.Value) ssa.Value) stri
 		if p, ok := base.(*ssa.Parameter); ok {
 			if a := tr(p); a != ssa.Value(p) {
 				ad := strings.TrimPrefix(an.D().Of(a), "&")
-				d = strings.Replace(d, "$"+p.Name(), ad, 1)
+				d = strings.Replace(d, an.ParamDesc(p), ad, 1)
 			}
 		}
 	}
@@ -211,7 +211,7 @@ func c08(c *core.Ctx, r *core.Report) {
 		"plus: (R2/R3) the failed-share predicate is a strict comparison of failed·100 against rate·(all iterations) without integer division, truncation or an undefined case; (R4) the CLI returns nil only after testing Error()==nil and Failed()==false; (R5) tolerance options come from the same-named flags/config options; (R6) setup/teardown failures reach the error set through the handle's own flags."
 	r.NotDecided = []string{"cobra / os.Exit wiring beyond 'the command returns an error'", "rows with a negative max-failures-rate (outside 'sane ranges'; printed as information)"}
 	failedFn := c.MustFn("internal/run", "Result.Failed")
-	recv := "$" + failedFn.Params[0].Name()
+	recv := an.ParamDesc(failedFn.Params[0])
 
 	var shareFn *ssa.Function
 	var shareCall *ssa.Call
